@@ -635,11 +635,16 @@ Section Guard.
     P p = true -> copy_dir (guard_api P a) p fi w = copy_dir a p fi w.
   Proof. intros HP. unfold copy_dir, chown_to. api_simpl. rewrite HP. reflexivity. Qed.
 
+  Lemma remove_if_symlink_guard (a : fsapi) (p : str) (w : world) :
+    P p = true -> remove_if_symlink (guard_api P a) p w = remove_if_symlink a p w.
+  Proof. intros HP. unfold remove_if_symlink. api_simpl. rewrite HP. reflexivity. Qed.
+
   Lemma restore_file_guard (base backup : fsapi) (p : str) (fi : finfo) (w : world) :
     P p = true ->
     restore_file (guard_api P base) (guard_api P backup) p fi w = restore_file base backup p fi w.
   Proof.
-    intros HP. unfold restore_file, copy_file, write_file, chown_to. api_simpl. rewrite HP. reflexivity.
+    intros HP. unfold restore_file, remove_if_symlink, copy_file, write_file, chown_to.
+    api_simpl. rewrite HP. reflexivity.
   Qed.
 
   Lemma restore_symlink_guard (base backup : fsapi) (p : str) (fi : finfo) (w : world) :
@@ -703,7 +708,9 @@ Section Guard.
     apply bind_ext.
     { apply (collect_errs_ext (fun _ => True)); [apply Forall_true; intros x; exact I|].
       intros x wx _. destruct (info_of_key (w_infos w) x) as [fi|] eqn:E; [|reflexivity].
-      apply copy_dir_guard. apply HT. exact (info_of_key_tracked _ _ _ E). }
+      assert (P x = true) as HPx by (apply HT; exact (info_of_key_tracked _ _ _ E)).
+      apply bind_ext; [apply remove_if_symlink_guard; exact HPx|].
+      intros u wy _. apply copy_dir_guard. exact HPx. }
     intros e2 w3 _.
     apply bind_ext.
     { apply (collect_errs_ext (fun _ => True)); [apply Forall_true; intros x; exact I|].
